@@ -406,14 +406,26 @@ func (w *world) pickXFF(k int) string {
 // warmup sends 12 plain requests from 12 client addresses: the lab must serve before any fault is
 // injected, and the answers tell which address the hash strategies map to which backend.
 func (w *world) warmup() string {
+	// set-up, not oracle: on a heavily loaded machine the first active probes or the first requests
+	// can run into the 1 s timeouts of the generated configuration; a request that fails is repeated
+	// until the lab has served it or 8 s have passed in total
+	deadline := time.Now().Add(8 * time.Second)
 	for i := 1; i <= 12; i++ {
-		id := w.nextID()
 		xff := fmt.Sprintf("10.3.0.%d", i)
-		w.good.Expect(id, okScript("good"))
-		w.faulty.Expect(id, okScript("faulty"))
-		o := get(w.proxy, id, xff, false)
-		w.good.Forget(id)
-		w.faulty.Forget(id)
+		var o outcome
+		for {
+			id := w.nextID()
+			w.good.Expect(id, okScript("good"))
+			w.faulty.Expect(id, okScript("faulty"))
+			o = get(w.proxy, id, xff, false)
+			w.good.Forget(id)
+			w.faulty.Forget(id)
+			if (o.Status == 200 && o.Served != "") || time.Now().After(deadline) {
+				break
+			}
+			w.label("warm-up-request-repeated")
+			time.Sleep(100 * time.Millisecond)
+		}
 		if o.Status != 200 || o.Served == "" {
 			return fmt.Sprintf("warm-up request %d before any fault: %v", i, o)
 		}
@@ -708,7 +720,7 @@ func (w *world) hammer(run int, c Case) string {
 				if connect(cl) {
 					exchange(cl)
 				}
-				time.Sleep(time.Millisecond) // paced: volume is not the point, being in flight at expiry instants is
+				time.Sleep(50 * time.Millisecond) // paced: volume is not the point, being in flight at expiry instants is
 			}
 		}(cl)
 	}
@@ -747,7 +759,7 @@ func (w *world) hammer(run int, c Case) string {
 			close(r.start)
 			r.done.Wait()
 			w.volleys++
-			time.Sleep(time.Until(began.Add(volleyPeriod))) // at most 100 volleys a second
+			time.Sleep(time.Until(began.Add(volleyPeriod))) // at most 10 volleys a second
 		}
 		for _, f := range feeds {
 			close(f)
@@ -940,7 +952,7 @@ func (w *world) alive(when string) string {
 const stallLimit = time.Second
 
 // volleyPeriod paces the synchronised volleys of a concurrent burst.
-const volleyPeriod = 10 * time.Millisecond
+const volleyPeriod = 100 * time.Millisecond
 
 type canary struct {
 	mu     sync.Mutex
